@@ -25,3 +25,28 @@ QUICK_ROMS = ['blargg/instr_timing/instr_timing.gb', 'blargg/halt_bug.gb', 'blar
 def quick_roms():
     base = os.path.join(os.environ.get('VERIF_REPO', '/repo'), 'gameboy', 'testdata')
     return [os.path.join(base, r) for r in QUICK_ROMS if os.path.exists(os.path.join(base, r))]
+
+
+def scene_lines(rng, inst, nobj=40):
+    """register/VRAM/OAM writes (through the real Mapper) that build a picture with many overlapping opaque objects,
+    a scrolled background and a window; LCD switched off while writing, then on with objects enabled"""
+    L = ['gb.w %d 65344 0' % inst]
+    for t in range(24):                                   # 24 tiles of random data
+        for b in range(16):
+            L.append('gb.w %d %d %d' % (inst, 0x8000 + 16 * t + b, rng.randrange(256)))
+    for _ in range(200):                                  # tile maps
+        L.append('gb.w %d %d %d' % (inst, rng.randrange(0x9800, 0xa000), rng.randrange(24)))
+    cx, cy = rng.randrange(20, 120), rng.randrange(30, 120)
+    for o in range(nobj):
+        # most objects overlap one another around (cx, cy); some share the same X
+        x = cx + rng.choice([0, 0, 1, 2, 3, 4, 5, 7, 8]) if rng.random() < 0.8 else rng.randrange(0, 168)
+        y = cy + rng.randrange(0, 10) if rng.random() < 0.8 else rng.randrange(0, 160)
+        for k, v in enumerate([y, x, rng.randrange(24), rng.choice([0, 0x10, 0x20, 0x40, 0x80, 0x90, rng.randrange(256) & 0xf0])]):
+            L.append('gb.w %d %d %d' % (inst, 0xfe00 + 4 * o + k, v))
+    L += ['gb.w %d 65351 %d' % (inst, rng.choice([0xe4, 0x1b, rng.randrange(256)])),
+          'gb.w %d 65352 %d' % (inst, rng.choice([0xe4, 0xd2, rng.randrange(256)])),
+          'gb.w %d 65353 %d' % (inst, rng.choice([0x1b, 0x6c, rng.randrange(256)])),
+          'gb.w %d 65346 %d' % (inst, rng.randrange(256)), 'gb.w %d 65347 %d' % (inst, rng.randrange(256)),
+          'gb.w %d 65354 %d' % (inst, rng.randrange(0, 144)), 'gb.w %d 65355 %d' % (inst, rng.randrange(0, 167)),
+          'gb.w %d 65344 %d' % (inst, rng.choice([0x93, 0x93, 0xb3, 0x97, 0xf3, 0x9b]))]
+    return L
